@@ -122,6 +122,79 @@ def param_release_summaries(m, rel):
     return summ
 
 
+def field_release_summaries(m, rel):
+    """class -> method name -> set of container-typed member fields (of that class) whose storage the method may
+    release, directly (a releasing operation on `field_`/`*field_`/`field_->`) or through its own methods"""
+    out = {}
+    by_cls = {}
+    for f in m.functions:
+        if not f.inst and f.cls and f.cfg:
+            by_cls.setdefault(f.cls, []).append(f)
+    for cls, fns in by_cls.items():
+        rec = [r for r in m.records if r["q"] == cls and not r.get("spec")]
+        fields = {}
+        for r in rec:
+            for fl in r["fields"]:
+                ow = owner_of_type(fl.get("t", ""))
+                if ow:
+                    fields[fl["n"]] = ow
+        if not fields:
+            continue
+        direct = {}
+        calls_own = {}
+        names = set(f.name for f in fns)
+        for f in fns:
+            d = set()
+            own = set()
+
+            def field_of(nid):
+                if nid is None:
+                    return None
+                x = f.nodes[f.strip(nid)]
+                while x["k"] == "UnaryOperator" and x["op"] == "*" and x.get("ch"):
+                    x = f.nodes[f.strip(x["ch"][0])]
+                if x["k"] in ("MemberExpr", "CXXDependentScopeMemberExpr") and x.get("n") in fields and not x.get("qual"):
+                    base = x.get("ch", [])
+                    if not base or x.get("implicit") or f.nodes[f.strip(base[0])]["k"] == "CXXThisExpr":
+                        return x["n"]
+                return None
+            for c in astq.calls(f):
+                n = f.nodes[c]
+                nm = f.call_simple_name(c)
+                if n["k"] == "CXXOperatorCallExpr":
+                    a = f.call_args(c)
+                    fl = field_of(a[0]) if a else None
+                    if fl and ("operator" + n.get("op", "")) in rel.get(fields[fl], ()):
+                        d.add(fl)
+                    continue
+                rc = f.call_receiver(c)
+                fl = field_of(rc)
+                if fl and nm in rel.get(fields[fl], ()):
+                    d.add(fl)
+                if nm in names and (rc is None or f.nodes[f.strip(rc)]["k"] == "CXXThisExpr"):
+                    own.add(nm)
+            for i in f.walk():
+                n = f.nodes[i]
+                if n["k"] in ("CompoundAssignOperator", "BinaryOperator") and n.get("op") in ("+=", "<<"):
+                    fl = field_of(n["ch"][0])
+                    if fl and ("operator" + n["op"]) in rel.get(fields[fl], ()):
+                        d.add(fl)
+            direct[f.name] = direct.get(f.name, set()) | d
+            calls_own[f.name] = calls_own.get(f.name, set()) | own
+        changed = True
+        while changed:
+            changed = False
+            for nm, own in calls_own.items():
+                add = set()
+                for o in own:
+                    add |= direct.get(o, set())
+                if not add <= direct[nm]:
+                    direct[nm] |= add
+                    changed = True
+        out[cls] = {k: v for k, v in direct.items() if v}
+    return out
+
+
 def owner_of_type(t):
     t = t or ""
     if "StringStream" in t or "Stream_T" in t:
@@ -139,7 +212,7 @@ def owner_of_type(t):
     return None
 
 
-def analyse_fn(m, f, rel, summ=None):
+def analyse_fn(m, f, rel, summ=None, fsumm=None):
     """returns list of (node id, pointer name, container text, releasing call text)"""
     if not f.cfg:
         return [], 0
@@ -183,6 +256,9 @@ def analyse_fn(m, f, rel, summ=None):
             sub = f.nodes[f.strip(n["ch"][0])]
             if sub["k"] == "ArraySubscriptExpr":
                 return borrow_source(sub["ch"][0])
+        if n["k"] == "ArraySubscriptExpr":
+            # a reference bound to an element: X.Storage()[i]
+            return borrow_source(n["ch"][0])
         return None
 
     ptr_locals = {}
@@ -190,6 +266,8 @@ def analyse_fn(m, f, rel, summ=None):
         for d in f.nodes[i]["decls"]:
             if d.get("tk") == "ptr" and "d" in d:
                 ptr_locals[d["d"]] = d["n"]
+            elif d.get("ref") and "d" in d and d.get("init", -1) >= 0 and f.nodes[f.strip(d["init"])]["k"] == "ArraySubscriptExpr":
+                ptr_locals[d["d"]] = d["n"]   # reference to an element of a container's storage
     if not ptr_locals:
         return [], 0
 
@@ -222,6 +300,10 @@ def analyse_fn(m, f, rel, summ=None):
                 key, owner = container_key(rc)
                 if key and owner and nm in rel.get(owner, ()):
                     out.append((key, f.text(e["n"])))
+                # a method of this class that may release a container-typed member of this object
+                if (rc is None or f.nodes[f.strip(rc)]["k"] == "CXXThisExpr") and fsumm and f.cls in fsumm:
+                    for fld in fsumm[f.cls].get(nm, ()):
+                        out.append((fld, f.text(e["n"])))
             else:
                 # free function: containers passed by (possibly) mutable reference
                 if nm in ("Move", "Forward", "Swap") or nm in ACCESSORS:
@@ -334,12 +416,13 @@ def rule_borrow(ctx, m, files, extra_fns=(), rid="BORROW"):
         r.broke("could not derive the releasing methods of StringStream (expand not found)")
     r.notes.append("may-release sets: " + "; ".join("%s: %s" % (k.split("::")[-1], ",".join(sorted(v))) for k, v in sorted(rel.items())))
     summ = param_release_summaries(m, rel)
+    fsumm = field_release_summaries(m, rel)
     fns = [f for f in m.functions if not f.inst and any(f.file.endswith(x) for x in files)]
     for q in extra_fns:
         fns += m.fns(q, pattern=True, required=False)
     total_borrows = 0
     for f in fns:
-        found, nb = analyse_fn(m, f, rel, summ)
+        found, nb = analyse_fn(m, f, rel, summ, fsumm)
         total_borrows += nb
         if nb:
             ctx.note_fn(f)
